@@ -8,7 +8,15 @@ META = {"NodeClass", "DisplayName", "Description", "Value", "NodeId", "BrowseNam
         "DataType", "ParentNodeId", "MethodDeclarationId"}
 
 
+class NoEntry:
+    """an id without an entry under its label in lookup_df"""
+    def __init__(self, i):
+        self.i = i
+
+
 def nid_json(n):
+    if isinstance(n, NoEntry):
+        return ["<no lookup entry>", "", str(n.i)]
     return [int(n.namespace), n.nodeid_type.value, n.value]
 
 
@@ -32,8 +40,13 @@ def impl_tables(out):
     """parse output dict -> canonical JSON (same shape as the driver's parse.files answer)"""
     import pandas as pd
     nodes, refs, lk = out["nodes"], out["references"], out.get("lookup_df")
-    uniq = None if lk is None else list(lk["uniques"])
-    look = (lambda i: None if pd.isna(i) else nid_json(uniq[int(i)])) if uniq is not None else (lambda n: None if pd.isna(n) else nid_json(n))
+    # the lookup table is read the way a user reads it: by index LABEL (= id), not by row position
+    uniq = None
+    if lk is not None:
+        by_label = dict(zip([int(i) if not pd.isna(i) else None for i in lk.index.tolist()], lk["uniques"].tolist()))
+        uniq = [by_label[i] if i in by_label else NoEntry(i) for i in range(len(lk))]
+    look = (lambda i: None if pd.isna(i) else (nid_json(uniq[int(i)]) if 0 <= int(i) < len(uniq) else ["<id outside the lookup table>", "", str(int(i))])) \
+        if uniq is not None else (lambda n: None if pd.isna(n) else nid_json(n))
     rows = []
     cols = [c for c in nodes.columns if c not in META]
     for _, r in nodes.iterrows():
@@ -149,6 +162,8 @@ def resolve(ns_list, nid):
     if nid is None:
         return None
     k = nid[0]
+    if not isinstance(k, int):          # a marker for "no lookup entry" / "id outside the table": kept as it is, it matches nothing
+        return list(nid)
     uri = ns_list[k] if 0 <= k < len(ns_list) else "<index %d out of range>" % k
     return [uri, nid[1], nid[2]]
 
